@@ -32,6 +32,7 @@ pub fn instantiate_msg(w: &[u32; WORLD_WORDS], p: &Profile) -> Value {
             5 => p10 / 10,
             6 => 0,
             7 => 1,
+            8 if w[23] & 1 == 0 => 1 + (w[23] % 100_000) as u128,
             _ => p10 * (1 + (w[23] % 1000) as u128),
         };
         m.insert("price_precision".into(), json!(prec.to_string()));
@@ -226,6 +227,8 @@ pub fn c13_grid(p: &Profile) -> Vec<Value> {
     for prec in 0u32..=19 {
         let p10 = 10u128.pow(prec);
         let mut incs = vec![p10.saturating_sub(1), p10, p10 + 1, p10 * 2, p10 / 10, p10 * 10, 0, 1, p10 * 7, p10 * 10 + 10u128.pow(prec.saturating_sub(1))];
+        // divisors and near-divisors of the power of ten, powers of two and five, small numbers
+        incs.extend([2, 3, 4, 5, 8, 12, 16, 25, 64, 125, p10 / 2, p10 / 5, p10 / 4, p10 * 3 / 2, 2u128.pow(prec), 5u128.pow(prec), 2u128.pow(prec) * 3, p10 + p10 / 2, p10 + p10 / 10]);
         incs.sort();
         incs.dedup();
         for inc in incs {
@@ -374,17 +377,18 @@ pub fn run_migration(prop: Prop, p: &Profile, tape: &Tape) -> Runner {
         None => return r,
     };
     // version
-    let vw = if prop == Prop::C15 {
+    let like_c15 = matches!(prop, Prop::C15 | Prop::C09 | Prop::C01);
+    let vw = if like_c15 {
         // mostly inside the conversion window
         weighted(w[20], &[30, 25, 8, 2, 15, 4, 10, 6])
     } else {
         pick(w[20], VERSIONS.len() + 2)
     };
     // legacy re-encoding of some open bids
-    let reencode = prop == Prop::C15 || gate(w[21], 400);
+    let reencode = like_c15 || gate(w[21], 400);
     let mut reenc_steps = vec![];
     if reencode {
-        let mask = w[21] | if prop == Prop::C15 { 1 } else { 0 };
+        let mask = w[21] | if like_c15 { 1 } else { 0 };
         for (i, (id, bid)) in book.bids.iter().enumerate() {
             if (mask >> (i % 32)) & 1 == 0 {
                 continue;
@@ -449,7 +453,7 @@ pub fn run_migration(prop: Prop, p: &Profile, tape: &Tape) -> Runner {
             reenc_steps.push(Step::ReencodeBid { id: id.clone(), events, event_base_denom: ebd });
         }
     }
-    let version_step = if prop == Prop::C15 {
+    let version_step = if like_c15 {
         let vs = ["0.16.2", "0.19.0", "0.18.2", "0.16.3", "0.19.1", "1.0.0", "0.19.2", "0.17.5"];
         Step::SetVersion { version: Some(vs[vw].to_string()), definition: "ats_smart_contract".into() }
     } else if vw < VERSIONS.len() {
@@ -511,7 +515,7 @@ pub fn run_migration(prop: Prop, p: &Profile, tape: &Tape) -> Runner {
     let class = classify(&r.world);
     let out = r.step(Step::Migrate { msg: msg.clone() });
     let migrated = out.map(|o| o.accepted()).unwrap_or(false);
-    if prop == Prop::C15 && migrated && class == VersionClass::ConversionWindow {
+    if like_c15 && migrated && class == VersionClass::ConversionWindow {
         let t_out = twin.migrate(&serde_json::to_vec(&msg).unwrap());
         if t_out.accepted() {
             // (a) the converted book equals the never-converted one, entry by entry (as JSON)
